@@ -205,7 +205,7 @@ def record(ev, key, obj, message, seen):
     ev.violations.append({"replay": path, "message": message, "key": key})
 
 
-CFGS = {"quick": [Cfg("asm", 4, 2, 4), Cfg("c32", 3, 3, 3)], "thorough": [Cfg("asm", 4, 2, 4), Cfg("c32", 3, 3, 3), Cfg("c64", 2, 1, 2), Cfg("generic"), Cfg("dxor")]}
+CFGS = {"quick": [Cfg("asm", 4, 2, 4), Cfg("c32", 3, 3, 3), Cfg("c64", 2, 1, 2), Cfg("dxor", 4, 4, 4)], "thorough": [Cfg("asm", 4, 2, 4), Cfg("c32", 3, 3, 3), Cfg("c64", 2, 1, 2), Cfg("generic"), Cfg("dxor", 4, 4, 4), Cfg("asm", 3, 1, 3), Cfg("c64", 4, 3, 4)]}
 
 
 def finding_key(sub, case, msg, cfg):
@@ -235,7 +235,7 @@ def run(tier):
         b = hb.harness_bins("cpp", "cpp.cpp", CFGS[tier], tape="words")
         ev.configs = [n for n, _ in b]
         q = tier == "quick"
-        rcrun.run_rc(ev, b, [("c17_ciphers", 80000 if q else 800000, 100), ("c17_hash", 50000 if q else 500000, 100)], finding_key, env_extra={"VERIF_FORK": "1"})
+        rcrun.run_rc(ev, b, [("c17_ciphers", 50000 if q else 800000, 100), ("c17_hash", 30000 if q else 500000, 100)], finding_key, env_extra={"VERIF_FORK": "1"})
     else:
         ev.notes.append("input-level harness skipped: a member it uses does not compile with g++ (reported above)")
     return finish(ev)
